@@ -156,6 +156,7 @@ type Run struct {
 	onces   map[lockKey]*onceState
 	pools   map[lockKey][]Value
 	killed  bool
+	stubs    map[string]Value
 	gPanic   interface{}
 	lastPanicStack string
 	deadlock bool
